@@ -216,3 +216,15 @@ claim("C18", category="exploration", engine="bytemc (filter harness) + arraymc",
            "-e in check -v: the processed file set equals the prediction and nothing is written.",
       note="cases where 'first match decides' and 'a directory pattern takes everything below' disagree are counted and not judged (manual ambiguous); fix's side of selection is C05's filter menu",
       design="3 C18")
+
+claim("C16", category="exploration", engine="bytemc (vector harness) + arraymc",
+      technique="exhaustive replay of stored reference arrays and of stored digest / checksum / parity vectors against the current build, cross-checked by independent implementations",
+      text="56 arrays written by a build of the reference commit (levels 1-6 and z3 x murmur3/spooky2 x hash sizes 16/8/4/2, every third with split "
+           "parity; two sync generations with deleted-block holes, links, empty dirs, zero-size file, two content copies) are loaded by the current "
+           "build: status, list, diff, check, check -a succeed, test-rewrite reproduces the content bytes, every single lost device (3 disks + all "
+           "levels) is rebuilt by fix to the golden bytes and check passes, and the independent parity/content oracle accepts the reference's files. "
+           "9421 vectors (both hashes for every length 0..1100 x 4 seeds, CRC-32C generic and dispatched for lengths 0..300 and a seeded long run, 6 "
+           "Cauchy + 3 power parity blocks of an 8-disk stripe) are reproduced bit for bit by the current build through a linked harness; the same "
+           "vectors are recomputed by native/vpref.c so the golden files are anchored to the published algorithms.",
+      note="golden files generated once from a scratch worktree of commit e695936 (see golden/README); both tiers run everything",
+      design="3 C16")
